@@ -247,6 +247,59 @@ type c10Multi struct {
 	Banks int          `json:"banks"`
 	Addrs []uint32     `json:"writer_addrs"`
 	Ops   []c10MultiOp `json:"ops"`
+	// Readers: the streams are BusReaders (each op reads Len bytes); interleaved they must return what
+	// each returns when it is the only reader (differential, independent of where the window ends)
+	Readers bool `json:"readers,omitempty"`
+}
+
+func c10MultiReaders(c c10Multi) (sig, what string) {
+	defer func() {
+		if x := recover(); x != nil {
+			sig, what = "unexplained:multi-reader", fmt.Sprintf("%+v: panic %v", c, x)
+		}
+	}()
+	img := c10Image(c.Banks)
+	snap := append([]byte(nil), img...)
+	rom, err := snes.NewROM("t", img)
+	if err != nil {
+		return "bad-case", err.Error()
+	}
+	type res struct {
+		data string
+		err  string
+	}
+	run := func(only int) [][]res {
+		rs := make([]io.Reader, len(c.Addrs))
+		for i, a := range c.Addrs {
+			if only < 0 || only == i {
+				rs[i] = rom.BusReader(a)
+			}
+		}
+		out := make([][]res, len(c.Addrs))
+		for _, op := range c.Ops {
+			if only >= 0 && op.W != only {
+				continue
+			}
+			p := make([]byte, op.Len)
+			n, e := rs[op.W].Read(p)
+			if n < 0 || n > op.Len {
+				n = 0
+			}
+			out[op.W] = append(out[op.W], res{string(p[:n]), fmt.Sprint(e)})
+		}
+		return out
+	}
+	together := run(-1)
+	for i := range c.Addrs {
+		alone := run(i)
+		if fmt.Sprint(together[i]) != fmt.Sprint(alone[i]) {
+			return "unexplained:multi-reader", fmt.Sprintf("%+v: reader %d at $%06x returns %d results %q interleaved with the other reader, %q when it is the only one: the readers are not independent", c, i, c.Addrs[i], len(together[i]), fmt.Sprint(together[i]), fmt.Sprint(alone[i]))
+		}
+	}
+	if !bytes.Equal(img, snap) {
+		return "unexplained:multi-reader", fmt.Sprintf("%+v: reading changed the image", c)
+	}
+	return "", ""
 }
 
 func c10MultiRun(c c10Multi) (sig, what string) {
@@ -304,7 +357,7 @@ func c10MultiCases(depth int) []c10Multi {
 		var rec func(p []c10MultiOp, d int)
 		rec = func(p []c10MultiOp, d int) {
 			if len(p) > 1 {
-				out = append(out, c10Multi{2, pr, append([]c10MultiOp(nil), p...)})
+				out = append(out, c10Multi{Banks: 2, Addrs: pr, Ops: append([]c10MultiOp(nil), p...)})
 			}
 			if d == 0 {
 				return
@@ -323,6 +376,13 @@ func c10MultiCases(depth int) []c10Multi {
 func replayC10(raw json.RawMessage) (string, error) {
 	var mc c10Multi
 	if json.Unmarshal(raw, &mc) == nil && len(mc.Addrs) > 0 {
+		if mc.Readers {
+			sig, what := c10MultiReaders(mc)
+			if sig == "" {
+				return "each reader returns what it returns alone", nil
+			}
+			return what, fmt.Errorf("%s", sig)
+		}
 		sig, what := c10MultiRun(mc)
 		if sig == "" {
 			return "the writers behave independently as the window model says", nil
@@ -463,14 +523,25 @@ func runC10(r *report.Run) {
 			r.ViolationSized(sig, what, multi[i], len(multi[i].Ops))
 		}
 	})
-	transitions += nm
+	// the same op sequences with two READERS, interleaved vs alone
+	var nr int64
+	par.For(len(multi), func(_, i int) {
+		mr := multi[i]
+		mr.Readers = true
+		atomic.AddInt64(&nr, int64(len(mr.Ops)))
+		if sig, what := c10MultiReaders(mr); sig != "" {
+			r.ViolationSized(sig, what, mr, len(mr.Ops))
+		}
+	})
+	transitions += nm + nr
+	r.Set("two_reader_histories", int64(len(multi)))
 	r.Set("two_writer_histories", int64(len(multi)))
 	r.Set("states", int64(len(states))+int64(len(multi)))
 	r.Set("transitions", transitions)
 	r.Set("traces_validated_against_impl", int64(len(cases)+len(multi)))
 	r.Set("evaluations", int64(len(cases)))
 	r.Set("distinct_nontrivial", nontrivial)
-	r.Set("rule", "every (image size, bank inside the image, boundary offset, length) single write/read, and every write history up to the stated depth over the length alphabet from the boundary start offsets, each followed by a reader at the same address; every call is executed on a fresh real ROM object and compared with the window model (full image compare after each write); non-trivial = address in the ROM half of a bank")
+	r.Set("rule", "every (image size, bank inside the image, boundary offset, length) single write/read, and every write history up to the stated depth over the length alphabet from the boundary start offsets, each followed by a reader at the same address; interleaved histories of two writers, and of two readers (each must return what it returns alone), on one ROM; every call is executed on a fresh real ROM object and compared with the window model (full image compare after each write); non-trivial = address in the ROM half of a bank")
 	r.Set("bounds", map[string]interface{}{"image_banks": bankCounts, "lengths": lens, "history_depth": depth, "history_lengths": wl, "history_starts": starts, "offsets": len(offList)})
 	r.Set("exhaustive", true)
 	r.Sample(c10Case{Banks: 2, Addr: 0x00FFFE, Writes: []int{4}, Reads: []int{0x8000}})
